@@ -18,6 +18,8 @@ from concurrent.futures import ThreadPoolExecutor
 
 VERIF = os.path.dirname(os.path.dirname(os.path.abspath(__file__)))
 PY = os.path.join(VERIF, ".venv", "bin", "python")
+if not os.path.exists(PY) and os.path.exists("/verif/.venv/bin/python"):
+    PY = "/verif/.venv/bin/python"  # a snapshot of /verif (vp run) has no venv of its own: use /verif's
 SCRATCH = os.path.join(VERIF, ".scratch")
 
 
